@@ -12,7 +12,9 @@ pub struct Case {
     pub g: GenLine,
     pub a: usize,
     pub b: usize,
-    /// order of the two separator setters on the re-configured calculator: bit 0 for A, bit 1 for B (set = thousands first)
+    /// order of the two separator setters on the re-configured calculator: bit 0 for A, bit 1 for B (set = thousands first);
+    /// bits 2-3: number / percentage format in force on BOTH sides (0 default, 1 rounding off, 2 four digits with the
+    /// zero fraction kept, 3 no digits and rounding off)
     #[serde(default)]
     pub order: u8,
 }
@@ -37,11 +39,24 @@ impl Prop for Separators {
         let rendered = format!("[{}] dec={:?} thou={:?}: {:?}  ->  dec={:?} thou={:?}: {:?}", c.g.src, da, ta, text_a, db, tb, text_b);
         let glued_comma = has_glued_comma(&c.g);
         let today0 = chrono::Utc::now().date_naive();
-        let oa = match w.eval(&c.g.cfg(da, ta), &c.g.lang, &text_a) {
+        let fmt = match (c.order >> 2) & 3 {
+            0 => None,
+            1 => Some((2u8, true, false)),
+            2 => Some((4u8, false, true)),
+            _ => Some((0u8, true, false)),
+        };
+        let with_fmt = |mut cfg: crate::common::Cfg| {
+            cfg.num = fmt;
+            cfg.pct = fmt;
+            cfg
+        };
+        let (cfg_a, cfg_b) = (with_fmt(c.g.cfg(da, ta)), with_fmt(c.g.cfg(db, tb)));
+        let rendered = if fmt.is_some() { format!("{} [number/percentage format {:?}]", rendered, fmt.unwrap()) } else { rendered };
+        let oa = match w.eval(&cfg_a, &c.g.lang, &text_a) {
             Ok(o) => o,
             Err(p) => return Verdict::fail(format!("panic at {}: {}", p.site, p.message), rendered),
         };
-        let ob = match w.eval(&c.g.cfg(db, tb), &c.g.lang, &text_b) {
+        let ob = match w.eval(&cfg_b, &c.g.lang, &text_b) {
             Ok(o) => o,
             Err(p) => return Verdict::fail(format!("panic at {}: {}", p.site, p.message), rendered),
         };
@@ -50,6 +65,7 @@ impl Prop for Separators {
             acc.fail(format!("{} slots vs {}", oa.slots.len(), ob.slots.len()));
         }
         let mut any_ok = false;
+        let mut printed_compared = 0;
         for (i, (x, y)) in oa.slots.iter().zip(ob.slots.iter()).enumerate() {
             let same = match (x, y) {
                 (Slot::Ok { v: vx, .. }, Slot::Ok { v: vy, .. }) => {
@@ -67,13 +83,34 @@ impl Prop for Separators {
                 acc.fail(format!("line {}: {} under dec={:?}/thou={:?} but {} under dec={:?}/thou={:?}", i + 1, x.brief(), da, ta, y.brief(), db, tb));
                 break;
             }
+            // "... how numbers are read and PRINTED": the printed forms of one and the same number, percentage or
+            // unit quantity differ in the separators only
+            if let (Slot::Ok { v: vx, out: px }, Slot::Ok { v: vy, out: py }) = (x, y) {
+                let payload = |v: &V| match v {
+                    V::Num(n, crate::common::NT::Decimal) | V::Pct(n) | V::Unit(n, _, _) => Some(n.to_bits()),
+                    _ => None,
+                };
+                if let (Some(bx), Some(by)) = (payload(vx), payload(vy)) {
+                    if bx == by {
+                        let norm = |s: &str, d: &str, t: &str| {
+                            let s = if t.is_empty() { s.to_string() } else { s.replace(t, "") };
+                            s.replace(d, "\u{1}")
+                        };
+                        printed_compared += 1;
+                        if norm(px, da, ta) != norm(py, db, tb) {
+                            acc.fail(format!("line {}: the same value is printed {:?} under dec={:?}/thou={:?} but {:?} under dec={:?}/thou={:?}: more than the separators differs", i + 1, px, da, ta, py, db, tb));
+                            break;
+                        }
+                    }
+                }
+            }
         }
         // the same on ONE calculator that is re-configured through the setters between the evaluations, with each
         // text also read once under the other convention in between (its result is not asserted): what a literal
         // denotes depends on the configuration in force, not on anything read before
         let mut reconfigured = false;
         if acc.ok() {
-            let (mut ca, mut cb) = (c.g.cfg(da, ta), c.g.cfg(db, tb));
+            let (mut ca, mut cb) = (cfg_a.clone(), cfg_b.clone());
             ca.order = c.order & 1;
             cb.order = (c.order >> 1) & 1;
             // the sequence starts from the library's default configuration, so that a case is self-contained
@@ -150,12 +187,12 @@ impl Prop for Separators {
             "C13" => "from:C13",
             _ => "from:C14",
         };
-        acc.finish(rendered).nt(any_ok && frac_or_group && reenters).class(src).class_if(frac_or_group, "has-fraction-or-thousands-group").class_if(reenters, "conversion-or-division").class_if(literals > 0, "literals-read-alone").class_if(any_ok, "evaluates-ok").class_if(reconfigured, "also-on-one-reconfigured-calculator").class_if(glued_comma, "punctuation-glued-to-a-number(Mon d, y)")
+        acc.finish(rendered).nt(any_ok && frac_or_group && reenters).class(src).class_if(frac_or_group, "has-fraction-or-thousands-group").class_if(reenters, "conversion-or-division").class_if(literals > 0, "literals-read-alone").class_if(any_ok, "evaluates-ok").class_if(reconfigured, "also-on-one-reconfigured-calculator").class_if(printed_compared > 0, "printed-forms-compared").class_if(fmt.is_some(), "non-default-number-format").class_if(glued_comma, "punctuation-glued-to-a-number(Mon d, y)")
     }
 }
 
 pub fn case_strategy() -> impl Strategy<Value = Case> {
-    (any_line(), 0usize..4, 1usize..4, 0u8..4).prop_map(|(g, a, d, order)| Case { g, a, b: (a + d) % 4, order })
+    (any_line(), 0usize..4, 1usize..4, 0u8..4, prop_oneof![2 => Just(0u8), 1 => 1u8..4]).prop_map(|(g, a, d, order, fmt)| Case { g, a, b: (a + d) % 4, order: order | (fmt << 2) })
 }
 
 pub fn regressions() -> Vec<Case> {
